@@ -443,6 +443,20 @@ EXTRA = {
             'Settings the property depends on are bound at every call whose callee would otherwise fall back to a default. No return / break / continue inside a finally block discards a worker failure.'),
     'C06': ('cell-axis reduction scan of the glue code',
             'Between chunk arrival and kernel the query matrix is never reduced along the cell axis.'),
+    'C11': ('loop coverage of the marker workers; data-slice provenance of '
+            'the vectors entering the Holm correction; sign analysis of '
+            'chunk extents; contiguity idiom',
+            'Also decides: both marker workers write an entry for every '
+            'pair index of their run; the clusters\' full mean / variance '
+            'vectors enter the t-test and the Holm correction whatever the '
+            'gene list; the gene list is applied whenever one is given; '
+            'marker and mask files can be written when a direction has no '
+            'entry and for a chunk of a single pair (findings F9, F10).'),
+    'C12': ('provenance of the pair indices reported to the utility update',
+            'Also decides: desperate pairs and filled slots are addressed '
+            'by the pair\'s index in the marker table '
+            '(taxonomy_idx_array[row]), and the column -> sign table is '
+            '{0: -1, 1: +1} in either spelling.'),
 }
 
 
